@@ -69,6 +69,9 @@ func (P *Prog) verifyFunction(fn *ssa.Function, ct *Contract) (rep *FnReport) {
 	ex.entry = st.clone()
 	val, out := ex.runFunction(fr, st, args)
 	if out != nil && ct != nil {
+		for _, ap := range ct.Applies {
+			ex.applyLemma(fr, out, ap, val)
+		}
 		for i, en := range ct.Ensures {
 			env := ex.specEnv(fr, out, ex.entry, false)
 			env.useLocals = false
@@ -101,6 +104,77 @@ func (P *Prog) verifyFunction(fn *ssa.Function, ct *Contract) (rep *FnReport) {
 	}
 	sort.Strings(rep.Notes)
 	return rep
+}
+
+// applyLemma assumes an instance of a separately proved lemma: `apply name(e1, ..., en)`
+// binds the lemma's variables to the values of e1..en (evaluated over the locals of the
+// function in state st) and assumes (assumptions ⇒ conclusions).
+func (ex *Exec) applyLemma(fr *Frame, st *State, ap Clause, res Value) {
+	call, ok := ap.Expr.(*ast.CallExpr)
+	if !ok {
+		specErr("apply needs lemma(args): %s", ap.Src)
+	}
+	id, ok := call.Fun.(*ast.Ident)
+	if !ok {
+		specErr("apply needs lemma(args): %s", ap.Src)
+	}
+	if bl, ok := builtinLemmas[id.Name]; ok {
+		argEnv := ex.specEnv(fr, st, ex.entry, true)
+		ex.bindResults(argEnv, fr.fn.Signature, res)
+		var args []Value
+		for _, a := range call.Args {
+			v := argEnv.eval(a)
+			if sv, isSc := v.(Sc); isSc && sv.Ty == untypedInt {
+				v = Sc{sv.T, tU64}
+			}
+			args = append(args, v)
+		}
+		st.assume(bl(args))
+		ex.note("axiom %s of the specification function oc16 (definition of x mod 65535 by periodicity) used in %s", id.Name, fr.fn)
+		return
+	}
+	var lem *Lemma
+	for _, l := range ex.P.lemmas {
+		if l.Name == id.Name {
+			lem = l
+		}
+	}
+	if lem == nil {
+		specErr("unknown lemma %s", id.Name)
+	}
+	if len(call.Args) != len(lem.Vars) {
+		specErr("lemma %s takes %d arguments", lem.Name, len(lem.Vars))
+	}
+	argEnv := ex.specEnv(fr, st, ex.entry, true)
+	ex.bindResults(argEnv, fr.fn.Signature, res)
+	lenv := &SpecEnv{ex: ex, st: st, vars: map[string]Value{}, assume: true, ctx: True, pkg: ex.P.pkgByPath(lem.Pkg)}
+	for i, a := range call.Args {
+		v := argEnv.eval(a)
+		t := lenv.resolveTypeName(lem.Vars[i].Type)
+		if t != nil {
+			v = argEnv.coerce(v, t)
+			if sv, isSc := v.(Sc); isSc {
+				if w, _, isInt := intInfo(t); isInt && sv.T.Sort.Kind == SBV && sv.T.Sort.W != w {
+					specErr("apply %s: argument %d has width %d, lemma variable %s has type %s", lem.Name, i+1, sv.T.Sort.W, lem.Vars[i].Name, lem.Vars[i].Type)
+				}
+			}
+		}
+		lenv.vars[lem.Vars[i].Name] = v
+	}
+	var hyp []*Term
+	for _, a := range lem.Assume {
+		n := *lenv
+		n.neg = true
+		hyp = append(hyp, n.evalBool(a.Expr))
+	}
+	for _, p := range lem.Prove {
+		st.assume(Implies(And(hyp...), lenv.evalBool(p.Expr)))
+	}
+	if ex.P.usedLemmas == nil {
+		ex.P.usedLemmas = map[string]bool{}
+	}
+	ex.P.usedLemmas[lem.Name] = true
+	ex.note("lemma %s applied in %s (proved separately as an obligation of the same run)", lem.Name, fr.fn)
 }
 
 func freshValueSafe(name string, t types.Type) (v Value) {
@@ -269,11 +343,30 @@ func (P *Prog) verifyLemma(l *Lemma) (rep *FnReport) {
 	for _, a := range l.Assume {
 		st.assume(env.evalBool(a.Expr))
 	}
+	for _, ap := range l.Applies {
+		call, ok := ap.Expr.(*ast.CallExpr)
+		if !ok {
+			specErr("apply needs name(args)")
+		}
+		id, _ := call.Fun.(*ast.Ident)
+		if id == nil || builtinLemmas[id.Name] == nil {
+			specErr("lemmas may only apply built-in axioms of specification functions: %s", ap.Src)
+		}
+		var args []Value
+		for _, a := range call.Args {
+			v := env.eval(a)
+			if sv, isSc := v.(Sc); isSc && sv.Ty == untypedInt {
+				v = Sc{sv.T, tU64}
+			}
+			args = append(args, v)
+		}
+		st.assume(builtinLemmas[id.Name](args))
+	}
 	for i, p := range l.Prove {
 		e2 := *env
 		e2.assume = false
 		g := e2.evalBool(p.Expr)
-		o := &Obligation{Fn: rep.Fn, Kind: "lemma", Name: fmt.Sprintf("lemma %s#%d", l.Name, i+1), Hyp: st.G, Goal: g, Skolems: e2.skolems, Props: l.Props, Src: p.Src}
+		o := &Obligation{Fn: rep.Fn, Kind: "lemma", Name: fmt.Sprintf("lemma %s#%d", l.Name, i+1), Hyp: st.G, Goal: g, Skolems: e2.skolems, Props: l.Props, Src: p.Src, Reveal: l.Reveal}
 		o.Pos = token.Position{Filename: l.File, Line: p.Line}
 		o.Lazy = append(o.Lazy, ex.lazy...)
 		rep.Obls = append(rep.Obls, o)
